@@ -4,6 +4,7 @@ import (
 	"fmt"
 	"go/token"
 	"go/types"
+	"strconv"
 	"strings"
 
 	"golang.org/x/tools/go/ssa"
@@ -395,12 +396,149 @@ func (c *Ctx) proportional(v ssa.Value) bool {
 	return false
 }
 
-// judgeSink decides one sink. Returns status ok/violation/undecided and detail.
+// taintedSyms returns the symbols of a whose representative value is input-derived.
+func (c *Ctx) taintedSyms(a Affine) map[string]bool {
+	out := map[string]bool{}
+	t := c.taint()
+	for k, v := range a.Sym {
+		if _, ok := a.T[k]; !ok || v == nil {
+			continue
+		}
+		if t.Why(v) != "" || t.Why(ir.StripConv(v)) != "" {
+			out[k] = true
+		}
+	}
+	return out
+}
+
+// entailedHere: required >= 0 follows from the facts dominating the sink; if
+// required mentions parameters of fn, it is enough that it follows at every
+// library call site with the arguments substituted.
+func (c *Ctx) entailedHere(fn *ssa.Function, blk *ssa.BasicBlock, required Affine) (bool, string) {
+	facts := affineFacts(c.guardFacts(fn, blk))
+	if entails(required, facts) {
+		return true, ""
+	}
+	// parameter substitution at call sites
+	var params []*ssa.Parameter
+	for k, v := range required.Sym {
+		if _, ok := required.T[k]; !ok {
+			continue
+		}
+		if p, ok := ir.StripConv(v).(*ssa.Parameter); ok && p.Parent() == fn {
+			params = append(params, p)
+		}
+	}
+	if len(params) == 0 {
+		return false, "not implied by the dominating comparisons (required: " + required.String() + " >= 0)"
+	}
+	n := c.P.CallGraph().Nodes[fn]
+	if n == nil {
+		return false, "no call sites"
+	}
+	sites := 0
+	for _, e := range n.In {
+		if e.Site == nil || !c.P.InLib(e.Caller.Func) {
+			continue
+		}
+		args := ir.CallArgs(e.Site)
+		req := required.clone()
+		for _, p := range params {
+			idx := -1
+			for i, q := range fn.Params {
+				if q == p {
+					idx = i
+				}
+			}
+			if idx < 0 || idx >= len(args) {
+				return false, "cannot map parameter"
+			}
+			sym := resolvedPath(p)
+			coeff := req.T[sym]
+			delete(req.T, sym)
+			req = req.add(affineOf(args[idx], 0).scale(coeff), 1)
+		}
+		sites++
+		siteFacts := affineFacts(c.guardFacts(e.Caller.Func, e.Site.Block()))
+		if !entails(req, siteFacts) {
+			return false, "call site " + c.IPos(e.Site) + " in " + name(e.Caller.Func) + " does not establish " + req.String() + " >= 0"
+		}
+	}
+	if sites == 0 {
+		return false, "not implied by the dominating comparisons (required: " + required.String() + " >= 0) and no library call site to check"
+	}
+	return true, ""
+}
+
+// remLoopIdiom: a -= b inside a loop that exits at a == 0, where the enclosing
+// code established init(a) % b == 0 (then a stays a multiple of b and a >= b).
+func (c *Ctx) remLoopIdiom(s *sink, a, b ssa.Value) bool {
+	facts := c.guardFacts(s.fn, s.instr.Block())
+	aff := affineFacts(facts)
+	aA := affineOf(a, 0)
+	one := aA.clone()
+	one.K--
+	if !entails(one, aff) { // a >= 1
+		return false
+	}
+	// initial value of the cell a is loaded from
+	ld, ok := ir.StripConv(a).(*ssa.UnOp)
+	if !ok || ld.Op != token.MUL {
+		return false
+	}
+	cell := cellOf(ld.X)
+	if cell == nil {
+		return false
+	}
+	var inits []Affine
+	for _, f := range withAnon(topFn(s.fn)) {
+		instrsOf(f, func(i ssa.Instruction) {
+			if st, ok := i.(*ssa.Store); ok && cellOf(st.Addr) == cell && i != s.instr {
+				// skip the decrement itself (stores the subtraction result)
+				if st.Val == s.instr.(ssa.Value) {
+					return
+				}
+				inits = append(inits, affineOf(st.Val, 0))
+			}
+		})
+	}
+	if len(inits) != 1 {
+		return false
+	}
+	bPath := resolvedPath(b)
+	for _, g := range facts {
+		op := g.cmp.Op
+		if !g.truth {
+			op = negate(op)
+		}
+		if op != token.EQL {
+			continue
+		}
+		rem, ok := ir.StripConv(g.cmp.X).(*ssa.BinOp)
+		z := g.cmp.Y
+		if !ok || rem.Op != token.REM {
+			rem, ok = ir.StripConv(g.cmp.Y).(*ssa.BinOp)
+			z = g.cmp.X
+		}
+		if !ok || rem.Op != token.REM {
+			continue
+		}
+		if k, isK := ir.ConstInt(z); !isK || k != 0 {
+			continue
+		}
+		if resolvedPath(rem.Y) == bPath && affineOf(rem.X, 0).equal(inits[0]) {
+			return true
+		}
+	}
+	return false
+}
+
+// judgeSink decides one sink: (ok, trivial, detail).
 func (c *Ctx) judgeSink(s *sink) (ok bool, trivial bool, detail string) {
 	t := c.taint()
-	facts := c.guardFacts(s.fn, s.instr.Block())
+	blk := s.instr.Block()
 	switch s.kind {
-	case "T1", "T5":
+	case "T1":
 		allTrivial := true
 		for _, subj := range s.subjects {
 			if subj == nil {
@@ -410,106 +548,157 @@ func (c *Ctx) judgeSink(s *sink) (ok bool, trivial bool, detail string) {
 				continue
 			}
 			allTrivial = false
-			why := t.Why(subj)
-			if why == "" {
-				// not input-derived: proportional or internal arithmetic
-				continue
+			if t.Why(subj) == "" {
+				continue // proportional to data held / internal arithmetic
 			}
-			ls := leafSet(subj)
-			guarded := false
-			for _, g := range facts {
-				if upperBound(g, ls) {
-					guarded = true
-					break
+			a := affineOf(subj, 0)
+			ts := c.taintedSyms(a)
+			if len(ts) == 0 {
+				// tainted as a whole but no tainted leaf: treat the value itself as the symbol
+				a = symAffine(resolvedPath(subj), subj)
+				ts = map[string]bool{resolvedPath(subj): true}
+			}
+			facts := affineFacts(c.guardFacts(s.fn, blk))
+			neg := false
+			for sym := range ts {
+				if a.T[sym] < 0 {
+					neg = true
+					continue
 				}
-			}
-			if !guarded {
-				if p, isParam := ir.StripConv(subj).(*ssa.Parameter); isParam {
-					if okAll, why2 := c.paramGuarded(s.fn, p, upperBound); okAll {
+				bounded := false
+				for _, f := range facts {
+					if f.T[sym] >= 0 {
 						continue
-					} else if why2 != "" {
-						return false, false, "size " + why + "; " + why2
+					}
+					// every positive symbol of the fact must be untainted (a constant bound or data held)
+					clean := true
+					for k, cf := range f.T {
+						if cf > 0 && (t.Why(f.Sym[k]) != "" || f.Sym[k] != nil && t.Why(ir.StripConv(f.Sym[k])) != "") {
+							clean = false
+						}
+					}
+					if clean {
+						bounded = true
 					}
 				}
-				return false, false, "operand is input-derived (" + why + ") and no dominating comparison bounds it from above"
+				if !bounded {
+					// parameter: every library call site must bound the argument
+					if p, isParam := ir.StripConv(a.Sym[sym]).(*ssa.Parameter); isParam && p.Parent() == s.fn {
+						if okAll, why2 := c.paramGuarded(s.fn, p, upperBound); okAll {
+							continue
+						} else if why2 != "" {
+							return false, false, "size is input-derived (" + t.Why(subj) + "); " + why2
+						}
+					}
+					return false, false, "size is input-derived (" + t.Why(subj) + ") and no dominating comparison bounds " + sym + " from above by a constant or by data already held"
+				}
+			}
+			if neg {
+				if ok2, why := c.entailedHere(s.fn, blk, a); !ok2 {
+					return false, false, "size subtracts an input-derived value and may be negative: " + why
+				}
 			}
 		}
 		return true, allTrivial, ""
 	case "T2":
 		a, b := s.subjects[0], s.subjects[1]
-		pred := relatesSub(a, b)
-		for _, g := range facts {
-			if pred(g, nil) {
-				return true, false, ""
-			}
+		req := affineOf(a, 0).add(affineOf(b, 0), -1)
+		if ok2, why := c.entailedHere(s.fn, blk, req); ok2 {
+			return true, false, ""
+		} else if c.remLoopIdiom(s, a, b) {
+			return true, false, ""
+		} else {
+			return false, false, "the subtraction may wrap: " + why
 		}
-		// operands that are parameters: every library call site must guard
-		if p, isParam := ir.StripConv(a).(*ssa.Parameter); isParam {
-			okAll, why := c.paramGuarded(s.fn, p, func(g guardFact, subj map[string]ssa.Value) bool {
-				// at the call site the argument plays the role of a
-				op := g.cmp.Op
-				if !g.truth {
-					op = negate(op)
-				}
-				lx, ly := leafSet(g.cmp.X), leafSet(g.cmp.Y)
-				if intersects(lx, subj) {
-					return op == token.GEQ || op == token.GTR || op == token.EQL || op == token.NEQ
-				}
-				if intersects(ly, subj) {
-					return op == token.LEQ || op == token.LSS || op == token.EQL || op == token.NEQ
-				}
-				return false
-			})
-			if okAll {
-				return true, false, ""
-			}
-			if why != "" {
-				return false, false, why
-			}
-		}
-		return false, false, fmt.Sprintf("no dominating comparison relates the operands (%s; %s)", t.Why(a), t.Why(b))
 	case "T3":
 		subj := s.subjects[0]
-		if t.Why(subj) == "" {
-			// computed from non-input values only
-			if c.proportional(subj) {
-				return true, true, ""
-			}
-			// Len() - x with clean x etc.: still require a relation if it is a subtraction
+		a := affineOf(subj, 0)
+		if t.Why(subj) == "" && len(c.taintedSyms(a)) == 0 {
+			return true, true, ""
 		}
-		ls := leafSet(subj)
-		for _, g := range facts {
-			if mentions(g, ls) {
-				return true, false, ""
+		if ok2, why := c.entailedHere(s.fn, blk, a); !ok2 {
+			return false, false, "argument computed from input (" + t.Why(subj) + ") may be negative: " + why
+		}
+		// upper bound against the receiver's length (Truncate/Next) or the sliced operand
+		var lenSym Affine
+		haveLen := false
+		switch x := s.instr.(type) {
+		case ssa.CallInstruction:
+			if s.role == "Buffer.Truncate" || s.role == "Buffer.Next" {
+				lenSym = symAffine("len("+resolvedPath(x.Common().Args[0])+")", nil)
+				haveLen = true
+			}
+		case *ssa.Slice:
+			lenSym = symAffine("len("+resolvedPath(x.X)+")", nil)
+			haveLen = true
+		}
+		if haveLen {
+			if ok2, why := c.entailedHere(s.fn, blk, lenSym.add(a, -1)); !ok2 {
+				return false, false, "argument computed from input (" + t.Why(subj) + ") may exceed the length: " + why
 			}
 		}
-		if t.Why(subj) == "" {
-			if _, isSub := ir.StripConv(subj).(*ssa.BinOp); !isSub {
-				return true, false, ""
-			}
-		}
-		return false, false, "argument is computed from input (" + t.Why(subj) + ") and no dominating comparison checks its range"
+		return true, false, ""
 	case "T4":
 		lenCall := s.subjects[0].(*ssa.Call)
-		want := "len(" + resolvedPath(lenCall.Call.Args[0]) + ")"
-		for _, g := range facts {
-			lx, ly := leafSet(g.cmp.X), leafSet(g.cmp.Y)
-			_, inX := lx[want]
-			_, inY := ly[want]
-			if !inX && !inY {
-				continue
+		idx := s.instr.Operands(nil)
+		_ = idx
+		var cst int64 = 1
+		switch x := s.instr.(type) {
+		case *ssa.IndexAddr:
+			if b, ok := ir.StripConv(x.Index).(*ssa.BinOp); ok {
+				cst, _ = ir.ConstInt(ir.StripConv(b.Y))
 			}
-			op := g.cmp.Op
-			if !g.truth {
-				op = negate(op)
-			}
-			if inX && (op == token.GTR || op == token.GEQ || op == token.NEQ) || inY && (op == token.LSS || op == token.LEQ || op == token.NEQ) {
-				return true, false, ""
+		case *ssa.Index:
+			if b, ok := ir.StripConv(x.Index).(*ssa.BinOp); ok {
+				cst, _ = ir.ConstInt(ir.StripConv(b.Y))
 			}
 		}
-		return false, false, "no dominating check that the slice is non-empty"
+		req := affineOf(lenCall, 0)
+		req.K -= cst
+		if ok2, why := c.entailedHere(s.fn, blk, req); !ok2 {
+			return false, false, "no dominating check establishes len >= " + strconv.FormatInt(cst, 10) + ": " + why
+		}
+		return true, false, ""
+	case "T5":
+		idx := s.subjects[0]
+		a := affineOf(idx, 0)
+		if ok2, why := c.entailedHere(s.fn, blk, a); !ok2 {
+			return false, false, "input-derived index may be negative: " + why
+		}
+		var base ssa.Value
+		switch x := s.instr.(type) {
+		case *ssa.IndexAddr:
+			base = x.X
+		case *ssa.Index:
+			base = x.X
+		}
+		var lenA Affine
+		if n, ok := byteLenAny(base); ok {
+			lenA = newAffine()
+			lenA.K = n
+		} else {
+			lenA = symAffine("len("+resolvedPath(base)+")", nil)
+		}
+		req := lenA.add(a, -1)
+		req.K--
+		if ok2, why := c.entailedHere(s.fn, blk, req); !ok2 {
+			return false, false, "input-derived index (" + t.Why(idx) + ") is not bounded by the length: " + why
+		}
+		return true, false, ""
 	}
 	return false, false, "unknown sink kind"
+}
+
+// byteLenAny returns the static length of an array (or pointer to array) operand.
+func byteLenAny(v ssa.Value) (int64, bool) {
+	t := v.Type().Underlying()
+	if p, ok := t.(*types.Pointer); ok {
+		t = p.Elem().Underlying()
+	}
+	if a, ok := t.(*types.Array); ok {
+		return a.Len(), true
+	}
+	return 0, false
 }
 
 // RuleT judges the sinks selected by `in` (by function) and kinds.
